@@ -8,6 +8,34 @@
 #include <vector>
 
 static void line(const std::string &s) { fputs(s.c_str(), stdout); fputc('\n', stdout); fflush(stdout); }
+// every mpi_typeof specialisation, with inputs that tell signed from unsigned from floating point (top bit set on odd ranks /
+// negative values / fractions); printed as integers (floating point: times 4, the inputs are multiples of 1/4)
+#include <cmath>
+#include <limits>
+#include <cstdint>
+template <typename T> static std::string show(T x) {
+  if constexpr (std::is_floating_point<T>::value) return std::to_string((long long)std::llround((long double)x * 4));
+  else if constexpr (std::is_signed<T>::value) return std::to_string((long long)x);
+  else return std::to_string((unsigned long long)x);
+}
+template <typename T> static void typed(ygm::comm &world, const std::string &nm, int me) {
+  std::string p = " " + std::to_string(me) + " : ";
+  T small, ext;
+  if constexpr (std::is_floating_point<T>::value) {
+    small = (me % 2) ? (T)(-(me + 1) * 0.25) : (T)(me * 0.5 + 0.75);
+    ext   = small;
+  } else if constexpr (std::is_signed<T>::value) {
+    small = (T)((me % 2) ? -(me + 2) : (me + 1));
+    ext   = (me % 2) ? (T)(std::numeric_limits<T>::min() + me) : (T)(std::numeric_limits<T>::max() - me);
+  } else {
+    small = (T)((me % 2) ? ((T)1 << (sizeof(T) * 8 - 1)) + (T)me : (T)(me + 1));
+    ext   = small;
+  }
+  if (nm != "char") fputs(("R ty_sum_" + nm + p + show<T>(world.all_reduce_sum(small)) + "\n").c_str(), stdout);
+  fputs(("R ty_min_" + nm + p + show<T>(world.all_reduce_min(ext)) + "\n").c_str(), stdout);
+  fputs(("R ty_max_" + nm + p + show<T>(world.all_reduce_max(ext)) + "\n").c_str(), stdout);
+  fflush(stdout);
+}
 static long inp(long seed, int r, int k) { return ((seed * 7919 + r * 104729 + k * 1299709) % 2001) - 1000; }
 
 int main(int argc, char **argv) {
@@ -24,6 +52,10 @@ int main(int argc, char **argv) {
   line("R all_reduce_min_u32" + p + std::to_string(world.all_reduce_min((uint32_t)(inp(seed, me, 2) + 5000))));
   line("R all_reduce_max_i64" + p + std::to_string(world.all_reduce_max((int64_t)(inp(seed, me, 3) * 5000000000L))));
   line("R all_reduce_sum_dbl" + p + std::to_string((long)(world.all_reduce_sum((double)inp(seed, me, 4) / 4.0) * 4)));
+  typed<char>(world, "char", me);          typed<int8_t>(world, "i8", me);    typed<int16_t>(world, "i16", me);
+  typed<int32_t>(world, "i32", me);        typed<int64_t>(world, "i64", me);  typed<uint8_t>(world, "u8", me);
+  typed<uint16_t>(world, "u16", me);       typed<uint32_t>(world, "u32", me); typed<uint64_t>(world, "u64", me);
+  typed<float>(world, "f32", me);          typed<double>(world, "f64", me);   typed<long double>(world, "f128", me);
   // tree all_reduce with user merges
   line("R tree_sum" + p + std::to_string(world.all_reduce((long)inp(seed, me, 5), [](long x, long y) { return x + y; })));
   line("R tree_max" + p + std::to_string(world.all_reduce((long)inp(seed, me, 6), [](long x, long y) { return std::max(x, y); })));
